@@ -4,6 +4,7 @@ From Coq Require Import ZArith List Bool Lia.
 Import ListNotations.
 From Mds Require Import Slice.Subseq Slice.LcsModel Slice.LcsProofs.
 From Mds Require Import Slice.LisModel Slice.LisSpec Slice.LisProofs.
+From Mds Require Import Slice.LcsSpec Slice.LcsSpecProofs Slice.LisSpecProofs.
 
 (* LCSFunc under any equivalence: a result is always returned (no panic, fuel suffices); it is a
    common subsequence (up to eqb) of both arguments; no common subsequence is longer. *)
@@ -104,3 +105,70 @@ Proof.
   - rewrite <- Z.sgn_opp. f_equal. lia.
   - lia.
 Qed.
+
+(* ---------------- the independent reference ---------------- *)
+(* The OCaml driver judges the implementation's own outputs with [subseq_b], [ordered_b],
+   [lcs_len_ref] and [lis_len_ref] (LcsSpec.v, LisSpec.v: a length-only table, a quadratic
+   table).  These theorems say that the reference means "the optimum" and that the models'
+   results have exactly that length -- the wording of the property. *)
+
+Theorem C12_lcs_length_is_reference :
+  forall (T : Type) (eqb : T -> T -> bool),
+    (forall x, eqb x x = true) ->
+    (forall x y, eqb x y = true -> eqb y x = true) ->
+    (forall x y z, eqb x y = true -> eqb y z = true -> eqb x z = true) ->
+    forall l r s, lcs_func T eqb l r = Some s -> length s = lcs_len_ref T eqb l r.
+Proof. exact lcs_func_length_is_ref. Qed.
+Print Assumptions C12_lcs_length_is_reference.
+
+Example C12_lcs_length_is_reference_witness :
+  lcs_func Z Z.eqb [1; 2; 2; 3]%Z [2; 2; 1; 3]%Z = Some [2; 2; 3]%Z
+  /\ lcs_len_ref Z Z.eqb [1; 2; 2; 3]%Z [2; 2; 1; 3]%Z = 3%nat.
+Proof. vm_compute. split; reflexivity. Qed.
+
+Theorem C12_lnds_length_is_reference :
+  forall (T : Type) (cmp : T -> T -> Z),
+    (forall a b, Z.sgn (cmp b a) = - Z.sgn (cmp a b))%Z ->
+    (forall a b c, cmp a b <= 0 -> cmp b c <= 0 -> cmp a c <= 0)%Z ->
+    forall vs s, lnds_func T cmp vs = Some s -> length s = lis_len_ref T cmp false vs.
+Proof. exact lnds_func_length_is_ref. Qed.
+Print Assumptions C12_lnds_length_is_reference.
+
+Example C12_lnds_length_is_reference_witness :
+  lis_len_ref Z Z.sub false [3; 1; 2; 2; 5; 4; 4; 1; 6]%Z = 6%nat.
+Proof. vm_compute. reflexivity. Qed.
+
+Theorem C12_lis_length_is_reference :
+  forall (T : Type) (cmp : T -> T -> Z),
+    (forall a b, Z.sgn (cmp b a) = - Z.sgn (cmp a b))%Z ->
+    (forall a b c, cmp a b <= 0 -> cmp b c <= 0 -> cmp a c <= 0)%Z ->
+    forall vs s, lis_func T cmp vs = Some s -> length s = lis_len_ref T cmp true vs.
+Proof. exact lis_func_length_is_ref. Qed.
+Print Assumptions C12_lis_length_is_reference.
+
+Example C12_lis_length_is_reference_witness :
+  lis_len_ref Z Z.sub true [3; 1; 2; 2; 5; 4; 4; 1; 6]%Z = 4%nat.
+Proof. vm_compute. reflexivity. Qed.
+
+(* What the reference functions compute, with no law on eqb / cmp at all: the greedy test decides
+   "subsequence up to eqb"; lcs_len_ref is the largest length of an exact subsequence of l that
+   matches a subsequence of r; lis_len_ref is the largest length of an ordered subsequence. *)
+Theorem C12_reference_meaning :
+  (forall (T : Type) (eqb : T -> T -> bool) s l,
+      subseq_b T eqb s l = true <-> SubseqB eqb s l)
+  /\ (forall (T : Type) (eqb : T -> T -> bool) l r,
+      (exists u, Subseq u l /\ SubseqB eqb u r /\ length u = lcs_len_ref T eqb l r) /\
+      (forall u, Subseq u l -> SubseqB eqb u r -> (length u <= lcs_len_ref T eqb l r)%nat))
+  /\ (forall (T : Type) (cmp : T -> T -> Z) (strict : bool) vs,
+      (exists t, Subseq t vs /\ ordered_b T cmp strict t = true
+                 /\ length t = lis_len_ref T cmp strict vs) /\
+      (forall t, Subseq t vs -> ordered_b T cmp strict t = true ->
+                 (length t <= lis_len_ref T cmp strict vs)%nat)).
+Proof.
+  split; [exact subseq_b_iff|]. split; [exact lcs_len_ref_optimal | exact lis_len_ref_optimal].
+Qed.
+Print Assumptions C12_reference_meaning.
+
+Example C12_reference_meaning_witness :
+  subseq_b Z Z.eqb [2; 3]%Z [1; 2; 2; 3]%Z = true /\ subseq_b Z Z.eqb [3; 2]%Z [1; 2; 2; 3]%Z = false.
+Proof. vm_compute. split; reflexivity. Qed.
